@@ -95,8 +95,10 @@ def run(ctx):
         "max_multiplexing_depth": summ.get("maxdepth", 0),
         "rule": "cases = seeded random networks built through the public API (1-3 buses, nodes with 1-2 interfaces, 0-3 "
                 "messages per interface incl. messages without signals, standard / enum / multiplexer signals nested up to "
-                "depth 3 with fixed and multi-group children and empty groups, enums without values, one attribute of every "
-                "type assigned to buses / nodes / messages / signals); each exported with ExportToMarkdown, parsed back and "
+                "depth 3 with fixed and multi-group children and empty groups, every 8th case with a guaranteed chain of 3-5 nested "
+                "multiplexers around an enum with values, types / units / enums referenced only from deep nesting, units with empty "
+                "symbol / empty name, enums without values, one attribute of every type (enum attributes built from value lists "
+                "with repeats in every position, defaults and assigned values at the range bounds) on buses / nodes / messages / signals); each exported with ExportToMarkdown, parsed back and "
                 "compared block-for-block with the Coq model, property clauses evaluated against the getters, String() called "
                 "on every entity; non-trivial = distinct network (hash of the model input) that contains a multiplexer with "
                 "children, an enum signal and a standard signal",
